@@ -35,3 +35,38 @@ def render_words(case):
                     ws.append(tok)
         res.append(ws)
     return {'pages': res}
+
+
+def render_fit(case):
+    """-> per page: dict(height, lines=[(y, h, first_word, inflow)], words=[...]) for the fit / progress monitors.
+    A 'line' is a LineBox not inside an out-of-flow (absolute/fixed/float/footnote) subtree; table rows are
+    reported too (kind 'row')."""
+    from tests.testing_utils import render_pages
+    from weasyprint.formatting_structure import boxes
+    pages = render_pages(case['html'])
+    res = []
+    for p in pages:
+        items = []
+        words = []
+
+        def walk(box, inflow):
+            box = _unwrap(box)
+            if not box.is_in_normal_flow() and not isinstance(box, boxes.PageBox):
+                inflow = False
+            if isinstance(box, boxes.LineBox):
+                tb = []
+                _walk(box, tb)
+                ws = [t for b in tb for t in b.text.split() if WORD.match(t)]
+                items.append(('line', box.position_y, box.height, ws[0] if ws else None, inflow))
+                words.extend(ws)
+                return
+            if isinstance(box, boxes.TableRowBox):
+                items.append(('row', box.position_y, box.height, None, inflow))
+            for c in getattr(box, 'children', None) or ():
+                walk(c, inflow)
+        html = p.children[0]
+        walk(html, True)
+        for extra in p.children[1:]:
+            walk(extra, False)        # footnote area, margin boxes
+        res.append({'height': p.height, 'items': items, 'words': words})
+    return res
